@@ -18,11 +18,52 @@ class HeapEnv(ME.Env):
         super().__init__(tu)
         self.heap = heap
 
+    def heap_path(self, oid, path, depth=0):
+        """value of <object oid><path>; a prefix of the path that yields another model object is followed (a->b->c)"""
+        obj = self.heap.get(oid, {})
+        if path in obj:
+            return obj[path]
+        if depth > 6:
+            return None
+        # split at the later `->` boundaries, longest prefix first
+        cuts = [i for i in range(2, len(path)) if path.startswith('->', i)]
+        for i in reversed(cuts):
+            head, rest = path[:i], path[i:]
+            if head in obj and isinstance(obj[head], int) and obj[head] in self.heap:
+                return self.heap_path(obj[head], rest, depth + 1)
+        return None
+
+    def lookup_text(self, t, env, depth=0):
+        if t in env:
+            return env[t]
+        m = ROOT.match(t)
+        if m and depth < 4:
+            r = env.get(m.group(1))
+            if isinstance(r, int) and r in self.heap:
+                return self.heap_path(r, m.group(2))
+            if isinstance(r, tuple) and len(r) == 2 and r[0] == 'addr':
+                rest = m.group(2)
+                rest = '.' + rest[2:] if rest.startswith('->') else rest
+                return self.lookup_text(r[1] + rest, env, depth + 1)
+        return None
+
     def eval(self, e, env, universe):
+        if e['k'] == 'UnaryOperator' and e.get('op') == '&':
+            x = F.strip(e['c'][0])
+            if x['k'] in ('MemberExpr', 'ArraySubscriptExpr', 'DeclRefExpr'):
+                t = F.src(x).replace(' ', '')
+                if x['k'] == 'ArraySubscriptExpr':
+                    i = self.eval(x['c'][1], env, universe)
+                    if isinstance(i, int):
+                        t = '%s[%d]' % (F.src(F.strip(x['c'][0])).replace(' ', ''), i)
+                return ('addr', t)
         if e['k'] == 'MemberExpr':
             t = F.src(e).replace(' ', '')
             if t in env:
                 return env[t]
+            v = self.lookup_text(t, env)
+            if v is not None:
+                return v
             b = F.strip(e['c'][0])
             if b['k'] == 'ArraySubscriptExpr':
                 i = self.eval(b['c'][1], env, universe)
@@ -32,7 +73,7 @@ class HeapEnv(ME.Env):
                         return env[t2]
             m = ROOT.match(t)
             if m and isinstance(env.get(m.group(1)), int) and env[m.group(1)] in self.heap:
-                return self.heap[env[m.group(1)]].get(m.group(2))
+                return self.heap_path(env[m.group(1)], m.group(2))
         if e['k'] == 'ArraySubscriptExpr':
             i = self.eval(e['c'][1], env, universe)
             if isinstance(i, int):
@@ -115,13 +156,44 @@ class PrintExec(ME.MiniExec):
             b = self.val(e['c'][0], env)
             if isinstance(b, dict):
                 return b.get(e['n'])
+            if isinstance(b, int) and b in self.heap:
+                return self.heap[b].get(('->' if e.get('arrow') else '.') + e['n'])
             raise F.AnalysisBroken('member of `%s` not modelled' % F.src(e['c'][0])[:60])
         if k == 'CallExpr':
             c = e.get('callee')
             if c in self.accessors:
                 return self.accessors[c](F.call_args(e), env, self)
+            if c in self.tu.funcs and self.tu.funcs[c].body is not None and self.depth < 3:
+                return self.call_unit_function(self.tu.funcs[c], F.call_args(e), env)
             raise F.AnalysisBroken('call of %s in an expression is not modelled' % c)
         raise F.AnalysisBroken('expression `%s` with side effects not modelled' % F.src(e)[:60])
+
+    depth = 0
+
+    def call_unit_function(self, g, args, env):
+        """execute a function of the unit over the same model: parameters are bound by value where the argument evaluates, and by
+        renaming of the text-keyed facts (`insn->code` of the caller's argument becomes `<param>->code`) otherwise"""
+        env2 = {}
+        for p_, a in zip(g.params, args):
+            a0 = F.strip(a)
+            try:
+                v = self.val(a, env)
+            except F.AnalysisBroken:
+                v = None
+            if v is not None:
+                env2[p_['n']] = v
+            at = F.src(a0).replace(' ', '')
+            for k_, v_ in env.items():
+                if k_.startswith(at + '->') or k_.startswith(at + '.') or k_.startswith(at + '['):
+                    env2[p_['n'] + k_[len(at):]] = v_
+        sub = PrintExec(self.tu, self.heap, self.accessors, self.printers, self.max_iter)
+        sub.depth = self.depth + 1
+        sub.retval = 'none'
+        r = sub.run(g.body, env2)
+        self.out.extend(sub.out)
+        if r == 'return' and sub.retval not in ('none',):
+            return sub.retval
+        return None
 
     def fmt(self, a, env):
         a = F.strip(a)
